@@ -631,6 +631,8 @@ def coq_pval(tv):
         return "(VBool %s)" % B(tv[1])
     if tv[0] == "f":
         return "(VFloat %s)" % S(tv[1])
+    if tv[0] == "n":
+        return "VNone"
     return "(VStr %s)" % S("!other:" + str(tv[1]))     # not a value the model's collector can hold
 
 
@@ -658,7 +660,7 @@ TBLS = ["t", "u", "v"]
 class PGen(tf.Gen):
     """terms_family generator with the value palette of this property and a restricted set of field tables"""
 
-    def __init__(self, rng, allowed=None, p_none=0.012, **kw):
+    def __init__(self, rng, allowed=None, p_none=0.03, **kw):
         super().__init__(rng, **kw)
         self.allowed = allowed        # None: terms_family's own tables; else list of table specs (possibly empty)
         self.p_none = p_none
